@@ -291,8 +291,10 @@ def suppressed_failures(rng, n):
 def run(ctx):
     machine_prop.run(ctx, FAMILIES, MONITORS, extra_scenarios=race_family(ctx.rng, ctx.n(120, 3000)) +
                      suppressed_failures(ctx.rng, ctx.n(40, 800)))
-    notif_replay(ctx, ctx.n(300, 3000))
-    cancel_self_replay(ctx, ctx.n(300, 3000))
+    from harness import watch
+    with watch.quiet_heap():
+        notif_replay(ctx, ctx.n(300, 3000))
+        cancel_self_replay(ctx, ctx.n(300, 3000))
     d16_directed(ctx)
 
 
